@@ -440,6 +440,18 @@ def sealNs (s : St) (ns : Nat) : St × Out :=
   let s := (nsLeases s ns).foldl (fun s l => untrack s l.id) s
   (drainMarks { s with sealed := s.sealed ++ [ns] } ns, .ok)
 
+/-- `sys/namespaces/<ns>` DELETE (`clearNamespaceResources`): the namespace's mounts are unmounted — which revokes the
+secrets they issued (`RevokePrefix` over the namespace's leases) — and the namespace's own `sys/` view, holding its
+leases, goes LAST (repair F90: it went first, and the secrets of the other mounts were never revoked at their
+backends). Every lease of the namespace is revoked at its backend, gone from storage and untracked. -/
+def nsDelete (s : St) (ns : Nat) : St × Out :=
+  if ns == 0 || s.sealed.contains ns || s.held.any (·.1 == ns) then (s, .err "delete") else
+  ((nsLeases s ns).foldl (fun s l => untrack (delLease (backendRevoke s l.id).2 l.id) l.id) s, .ok)
+
+/-- the deletion before the repair F90: the lease entries are wiped with the namespace's `sys/` view, nothing is revoked -/
+def nsDeleteWipeFirst (s : St) (ns : Nat) : St :=
+  (nsLeases s ns).foldl (fun s l => untrack (delLease s l.id) l.id) s
+
 /-- a namespace restore starts: the namespace is unsealed, restore mode goes up, and every lease of the namespace is
 "collected, not handled yet" (`held`) -/
 def unsealStart (s : St) (ns : Nat) : St :=
@@ -513,6 +525,7 @@ inductive Op where
   | unsealNsFault (ns fid : Nat) (now : Int)
   | nsReg (ns : Nat) (ttl max : Int) (renewable : Bool) (now : Int)
   | sealNs (ns : Nat)
+  | nsDelete (ns : Nat)
   | unsealNs (ns : Nat) (now : Int)
   | unsealBegin (ns h : Nat) (now : Int)
   | unsealEnd (ns : Nat) (now : Int)
@@ -539,6 +552,7 @@ def applyOp (s : St) : Op → St × Out
   | .unsealNsFault ns fid now => unsealNsFault s ns fid now
   | .nsReg ns ttl max ren now => nsReg s ns ttl max ren now
   | .sealNs ns => sealNs s ns
+  | .nsDelete ns => nsDelete s ns
   | .unsealNs ns now => unsealNs s ns now
   | .unsealBegin ns h now => unsealBegin s ns h now
   | .unsealEnd ns now => unsealEnd s ns now
